@@ -78,11 +78,15 @@ def gen_mm(rng, profile='mixed'):
     """A well-formed metamodel: 2-3 classes (optionally B' < B), 1-2 opposite pairs of every multiplicity pairing,
     containment with/without a parent opposite, references without opposite, a few attributes."""
     mm = MMDesc()
-    ncls = rng.choice([2, 2, 3])
+    ncls = rng.choice([2, 2, 3, 5])
     mm.classes.append((0, False, []))
     mm.classes.append((1, False, []))
     if ncls == 3:
         mm.classes.append((2, False, [rng.choice([0, 1])]))
+    if ncls == 5:       # a diamond below class 0 (in either declaration order), so that features are inherited along two paths
+        mm.classes.append((2, False, [0]))
+        mm.classes.append((3, False, [0]))
+        mm.classes.append((4, False, rng.choice([[2, 3], [3, 2]])))
     cls = lambda: rng.randrange(2)
 
     def pair():
